@@ -1,2 +1,170 @@
-def compare(ctx, P, results):
-    return {"violations": [], "compared": 0, "info": {"status": "model driver not built yet"}}
+"""model side of the correspondence check: the Coq machine extracted to OCaml"""
+import os, re, subprocess, shutil, time
+from common import *
+import hrun, coqstage
+
+DRV = os.path.join(CACHE, "driver")
+
+def build():
+    """make Extract.vo (re-extracts when the model or the regenerated ASTs changed), compile driver"""
+    with locked("driver"):
+        b = coqstage.build(["Extract.vo"])
+        if not b["ok"]:
+            return None, b
+        os.makedirs(DRV, exist_ok=True)
+        srcs = [os.path.join(COQ, "model.ml"), os.path.join(COQ, "model.mli"), os.path.join(VERIF, "driver", "driver.ml")]
+        binp = os.path.join(DRV, "model_driver")
+        if not all(os.path.exists(s) for s in srcs):
+            # Extract.vo up to date but the .ml files were cleaned: force re-extraction
+            try:
+                os.remove(os.path.join(COQ, "Extract.vo"))
+            except OSError:
+                pass
+            b = coqstage.build(["Extract.vo"])
+            if not b["ok"] or not all(os.path.exists(s) for s in srcs):
+                return None, b
+        if not os.path.exists(binp) or os.path.getmtime(binp) < max(os.path.getmtime(s) for s in srcs):
+            for s in srcs:
+                shutil.copy(s, DRV)
+            rc, out = run(["ocamlfind", "ocamlopt", "-O2", "-w", "-a", "model.mli", "model.ml", "driver.ml", "-o", "model_driver"],
+                          cwd=DRV, timeout=600)
+            if rc != 0:
+                return None, {"ok": False, "log": out, "errors": [{"file": "driver", "decl": None, "msg": out[-800:]}]}
+        return binp, b
+
+def run_model(binp, lines, timeout=600):
+    """-> dict id -> list of trace lines"""
+    res = {}
+    if not lines:
+        return res
+    chunks = [lines[i::NCPU] for i in range(NCPU)]
+    procs = []
+    tmpd = os.path.join(CACHE, "tmp")
+    os.makedirs(tmpd, exist_ok=True)
+    for i, ch in enumerate(chunks):
+        if not ch:
+            continue
+        f = os.path.join(tmpd, "model_%d_%d.hist" % (os.getpid(), i))
+        open(f, "w").write("\n".join(ch) + "\n")
+        procs.append((f, subprocess.Popen(["bash", "-c", "ulimit -s unlimited 2>/dev/null; ulimit -v 6000000; exec '%s' '%s'" % (binp, f)],
+                                          stdout=subprocess.PIPE, stderr=subprocess.DEVNULL)))
+    for f, p in procs:
+        try:
+            out, _ = p.communicate(timeout=timeout)
+        except subprocess.TimeoutExpired:
+            p.kill()
+            out, _ = p.communicate()
+        os.remove(f)
+        cur, curid = None, None
+        for l in out.decode("utf8", "replace").splitlines():
+            if l.startswith("BEGIN "):
+                curid, cur = l[6:].strip(), []
+            elif l == "DONE":
+                if curid is not None:
+                    res[curid] = cur
+                curid, cur = None, None
+            elif cur is not None:
+                cur.append(l)
+    return res
+
+FATAL = re.compile(r"^\d+ \S+ (ub:\S+|abort|allocabort:\S+|nofuel) ")
+
+def fatal_outcome(mlines):
+    for l in mlines:
+        m = FATAL.match(l)
+        if m:
+            return m.group(1)
+    return None
+
+# ---------------------------------------------------------------- projections
+
+VEC = re.compile(r"v(\d+)=(\d+),(\d+),([^,]+),(\[[^\]]*\])")
+
+def project(pid, p, fields):
+    """canonical projection of a parsed trace line"""
+    out = [str(p["k"]), p["op"]]
+    if "out" in fields:
+        out.append(p["out"])
+    if "ret" in fields:
+        out.append("r=" + p["ret"])
+    st = []
+    for m in VEC.finditer(p["state"]):
+        v, l, c, pl, ids = m.groups()
+        s = "v" + v
+        if "len" in fields:
+            s += " len=" + l
+        if "cap" in fields:
+            s += " cap=" + c
+        if "place" in fields:
+            s += " at=" + pl
+        if "null" in fields:
+            s += " null=" + str(pl == "nul")
+        if "ids" in fields:
+            s += " " + ids
+        st.append(s)
+    out.append("; ".join(st))
+    if "alloc" in fields:
+        out.append("a=[%s]" % p["alloc"])
+    if "elems" in fields:
+        out.append("e=[%s]" % p["elems"])
+    return " | ".join(out)
+
+ALL = {"out", "ret", "len", "cap", "place", "ids", "alloc", "elems"}
+FIELDS = {
+    "C01": {"out", "ret", "len", "ids"},
+    "C02": {"out", "ret", "len", "ids", "elems"},
+    "C03": {"out", "place", "alloc", "cap"},
+    "C04": {"out", "ret", "len", "ids", "elems"},
+    "C05": {"out", "ret", "len", "ids", "elems"},
+    "C06": ALL,
+    "C07": {"out", "len", "cap", "place", "alloc"},
+    "C08": {"out", "ret", "place", "alloc"},
+    "C09": {"out", "len", "cap", "place", "alloc"},
+    "C10": {"out", "ret", "len", "ids"},
+    "C11": ALL,
+    "C12": {"out", "ret", "len", "ids", "elems", "alloc"},
+    "C14": ALL,
+    "C15": {"out", "ret", "len", "ids"},
+    "C17": {"out", "ret", "len", "ids", "elems", "alloc"},
+    "C18": {"out", "alloc", "place", "cap", "len"},
+}
+
+def compare_one(pid, line, mlines, res):
+    """-> (n lines compared, mismatch or None)"""
+    fields = FIELDS.get(pid, ALL)
+    ilines = res["lines"]
+    fo = fatal_outcome(mlines)
+    n = 0
+    for i, ml in enumerate(mlines):
+        if i == 0:
+            continue          # "H id"
+        mp = hrun.parse_line(ml)
+        if mp is None:
+            return n, {"at": i, "model": ml, "impl": None, "why": "unparsable model line"}
+        if mp["out"].startswith(("ub:", "nofuel")):
+            return n, {"at": mp["k"], "model": ml, "impl": (ilines[i] if i < len(ilines) else "(process fate: %s)" % res["fate"]),
+                       "why": "the model reaches %s: the modelled code misbehaves on this history" % mp["out"], "model_fatal": mp["out"]}
+        if mp["out"] == "abort" or mp["out"].startswith("allocabort"):
+            # the process must die by SIGABRT here (and, for allocation failure, name the size)
+            ok = res["fate"] == "signal 6" and len([l for l in ilines if hrun.parse_line(l)]) == i - 1
+            if ok and mp["out"].startswith("allocabort"):
+                size = int(mp["out"].split(":")[1])
+                ok = res.get("alloc_error") in (None, size) if "alloc_error" in res else True
+                if res.get("alloc_error") is not None and res["alloc_error"] != size:
+                    ok = False
+            if not ok:
+                return n, {"at": mp["k"], "model": ml, "impl": "fate=%s after %d lines, alloc_error=%s" % (res["fate"], len(ilines) - 1, res.get("alloc_error")),
+                           "why": "model predicts %s" % mp["out"]}
+            return n + 1, None
+        if i >= len(ilines):
+            return n, {"at": mp["k"], "model": ml, "impl": "(missing: process fate %s)" % res["fate"], "why": "implementation trace ends early"}
+        ip = hrun.parse_line(ilines[i])
+        if ip is None:
+            return n, {"at": mp["k"], "model": ml, "impl": ilines[i], "why": "unparsable implementation line"}
+        a, b = project(pid, mp, fields), project(pid, ip, fields)
+        n += 1
+        if a != b:
+            return n, {"at": mp["k"], "model": a, "impl": b, "why": "projection %s differs" % sorted(fields)}
+    if res["fate"] != "done" and fo is None:
+        return n, {"at": -1, "model": "(history completes)", "impl": "fate=%s" % res["fate"], "why": "implementation did not complete the history"}
+    return n, None
